@@ -2764,6 +2764,18 @@ func genLoad(rt *rapid.T, f *family, wide bool) load {
 			underJoined = true
 		}
 	}
+	// listed finding nested-join-preload-nil-struct: a single-struct destination,
+	// Joins("R.S") and a preload below S panic when R is absent.
+	if l.Shape == "struct" && harness.OpenClass("C11", "nested-join-preload-nil-struct") {
+		for _, j := range l.Joins {
+			for _, p := range l.Preloads {
+				if parts := relSegments(p.Path); j.Nested != "" && len(parts) >= 3 && parts[0] == j.Rel && parts[1] == j.Nested && l.Shape == "struct" {
+					l.Shape, l.Reload, l.Finisher = "slice", false, ""
+					evid.Excluded("nested-join-preload-nil-struct")
+				}
+			}
+		}
+	}
 	// FindInBatches: pages by the (single) primary key, so no duplicated parents
 	if (l.Shape == "slice" || l.Shape == "ptrslice") && len(l.Joins) == 0 && !l.Dup && len(root.pk) == 1 && rapid.IntRange(0, 3).Draw(rt, "batches") == 0 {
 		l.Batch = rapid.IntRange(1, 3).Draw(rt, "batch-size")
@@ -3148,9 +3160,16 @@ func ip(i int) *int       { return &i }
 func witness(t *testing.T, g *graph, loads ...load) {
 	t.Helper()
 	for _, l := range loads {
-		if o := runCase(g, l); o.msg != "" {
-			t.Errorf("C11 violated: %s\n  case: %s", o.msg, o.desc)
-		}
+		func() {
+			defer func() {
+				if p := recover(); p != nil {
+					t.Errorf("C11 violated: the load panicked: %v\n  case: %s load %s", p, g, l)
+				}
+			}()
+			if o := runCase(g, l); o.msg != "" {
+				t.Errorf("C11 violated: %s\n  case: %s", o.msg, o.desc)
+			}
+		}()
 	}
 }
 
@@ -3217,6 +3236,17 @@ func TestC11WitnessAssocEmbeddedDup(t *testing.T) {
 	}}, load{Mode: "query", Root: "AUser", Shape: "slice", Preloads: []preloadSpec{
 		{Path: clause.Associations, Cond: &cond{Form: "inline-in", K: 0}},
 	}})
+}
+
+// First(&user) with Joins("Boss.Boss") and Preload("Boss.Boss.Team") for a user
+// without a boss: the joined Boss is a nil pointer, preloadEntryPoint descends
+// into it for the nested joined relation and dereferences it (reflect panic).
+// A slice destination skips nil joined records; the struct branch does not.
+func TestC11WitnessNestedJoinPreloadNilStruct(t *testing.T) {
+	g := graphOf(famByName("A"), &AUser{ID: 1}, &AUser{ID: 2})
+	witness(t, g, load{Mode: "query", Root: "AUser", Shape: "struct", Pick: 0,
+		Joins:    []joinSpec{{Rel: "Boss", Nested: "Boss"}},
+		Preloads: []preloadSpec{{Path: "Boss.Boss.Team"}}})
 }
 
 // a parent with composite key (0,"x") and a pet whose foreign key is (*int -> 0,
